@@ -50,6 +50,11 @@ CHECKS["C13"] = dict(engine="wire", technique="stateful property-based testing o
    note="Handler internals are read through a guarded read-only probe; sockets are replaced by channels feeding the real receive path; tokio virtual time.",
    ref="7.5 / C13")
 
+CHECKS["C04"] = dict(engine="wire", technique="stateful property-based testing over generated fault schedules with a request/outcome ledger (real handlers, virtual wire, paused clock)",
+   text="Exploration: thousands of generated schedules per run (loss, duplication, reordering, delay across timeouts, challenges both ways, late or missing application answers, peer restarts, record-less contacts); an independent ledger counts responses and failures per request id, checks exactly-one-terminal-outcome after a drain, the 1+retries transmission bound per session key (by decrypting captured datagrams) and that every Timeout is earned. Found two defects on the pinned tree (queued request never released; spurious Timeout from the internal ENR request), both fixed.",
+   note="Virtual time with 50 ms stamp granularity; keys for decrypting captured traffic come from the guarded probe; requests submitted at a peer before its restart are not judged.",
+   ref="7.0 / C04")
+
 NOT_YET = {}
 
 def main():
